@@ -38,6 +38,8 @@ def run(pid, cfg, repo, work, tier):
             out += sat_sites(repo, work, x)
         elif x['kind'] == 'dispatch':
             out += dispatch(repo, work, x)
+        elif x['kind'] == 'encoder_dispatch':
+            out += encoder_dispatch(repo, work, x)
         elif x['kind'] == 'kani':
             out += kani.run(repo, work, x, tier)
     return out
@@ -108,4 +110,64 @@ def dispatch(repo, work, x):
                          "detail": "src/%s:%d fn %s: arm `%s` builds a %s; allowed for %s-%s: %s" % (x['file'], arms[0]['line'], x['function'], arms[0]['pattern'], arms[0]['ctor'], x['query'], sem, ', '.join(allowed)),
                          "counterexample": {"site": "src/%s:%d" % (x['file'], arms[0]['line']), "query": "%s-%s" % (x['query'], sem), "solver": arms[0]['ctor']}})
         res.append(base)
+    return res
+
+
+ENC_COMPLETE = ["new_for_complete_semantics", "HybridCompleteConstraintsEncoder::default", "new_default_complete_constraints_encoder"]
+ENC_KNOWN = ENC_COMPLETE + ["new_for_admissibility", "new_for_conflict_freeness", "new_default_conflict_freeness_encoder"]
+ALL_SEM = ["GR", "CO", "PR", "ST", "SST", "STG", "ID"]
+
+def encoder_dispatch(repo, work, x):
+    """syntactic obligations on solve_command::create_encoder: the encoders that can be built for a semantics must capture the
+    base semantics its solver enumerates -- conflict-free sets for STG, complete sets for CO / PR / SST / ID (admissible sets
+    are also right for SE-PR, and only there). One obligation per (arm, semantics reaching the arm)."""
+    import re
+    oj = os.path.join(work, 'dispatch_enc.json')
+    cmd = [assemble.VX, 'dispatch', os.path.join(repo, 'src'), oj, x['file']]
+    t0 = time.time()
+    p = subprocess.run(cmd, capture_output=True, text=True)
+    if p.returncode != 0:
+        raise assemble.Undecided("dispatch scan failed: " + p.stderr.strip())
+    tables = [t for t in json.load(open(oj)).get('tail_match_tables', []) if t['function'] == x['function']]
+    if len(tables) != 1:
+        raise assemble.Undecided("dispatch scan: no `match` as the last expression of fn %s in %s" % (x['function'], x['file']))
+    res = []
+    taken = set()
+    for a in tables[0]['arms']:
+        named = [sm for sm in ALL_SEM if re.search(r'(^|[^A-Za-z0-9_])Semantics\s*::\s*%s($|[^A-Za-z0-9_])' % sm, a['pattern'])]
+        if a['pattern'].strip() == '_':
+            reach = [sm for sm in ALL_SEM if sm not in taken]
+        elif named:
+            reach = [sm for sm in named if sm not in taken]
+        else:
+            res.append({"name": "encoder_dispatch::%s::arm@%d" % (x['function'], a['line']), "backend": "syntactic(vx dispatch)", "status": "undecided",
+                        "msg": "arm pattern not understood", "detail": "src/%s:%d arm `%s`" % (x['file'], a['line'], a['pattern']), "cmd": None, "time_ms": 0})
+            continue
+        if a['guard'] is None:
+            taken.update(named if named else reach)
+        for sm in reach:
+            if sm in ('GR', 'ST'):
+                continue   # their solvers take no encoder from this function
+            name = "encoder_dispatch::%s::%s%s" % (x['function'], sm, '[guarded]' if a['guard'] else '')
+            base = {"name": name, "backend": "syntactic(vx dispatch)", "cmd": " ".join(cmd) if not res else None,
+                    "time_ms": int((time.time() - t0) * 1000)}
+            unknown = [c for c in a['ctors'] if c not in ENC_KNOWN]
+            if sm == 'STG':
+                allowed = ["new_for_conflict_freeness", "new_default_conflict_freeness_encoder"]
+            elif sm == 'PR' and a['guard'] and 'SE-PR' in a['guard']:
+                allowed = ENC_COMPLETE + ["new_for_admissibility"]
+            else:
+                allowed = ENC_COMPLETE
+            bad = [c for c in a['ctors'] if c in ENC_KNOWN and c not in allowed]
+            if unknown:
+                base.update({"status": "undecided", "msg": "unknown encoder constructor", "detail": "src/%s:%d: %s" % (x['file'], a['line'], unknown)})
+            elif bad:
+                base.update({"status": "fail", "msg": "an encoder for another base semantics can be built for %s" % sm,
+                             "detail": "src/%s:%d fn %s, arm `%s`%s: builds %s; for %s only %s capture the sets its solver enumerates" % (x['file'], a['line'], x['function'], a['pattern'], (' if ' + a['guard']) if a['guard'] else '', sorted(set(bad)), sm, allowed),
+                             "counterexample": {"site": "src/%s:%d" % (x['file'], a['line']), "semantics": sm, "encoders": sorted(set(bad))}})
+            else:
+                base.update({"status": "ok", "msg": "", "detail": "src/%s:%d %s -> %s" % (x['file'], a['line'], sm, sorted(set(a['ctors'])))})
+            res.append(base)
+    if not [r for r in res if r['status'] == 'ok']:
+        raise assemble.Undecided("vacuity guard: no encoder dispatch obligation could be decided")
     return res
